@@ -113,7 +113,7 @@ pub fn run_bytes(target: &str, data: &[u8], st: &mut Stats) -> Vec<(&'static str
         "fz_reader" => {
             // first octet: number of reader calls (<= 30); then that many selectors; then the message
             let n = data.first().map(|b| (*b as usize) % 31).unwrap_or(0).min(data.len().saturating_sub(1));
-            let ops = reader_ops(&data[1.min(data.len())..1 + n]);
+            let ops = reader_ops(&data[1.min(data.len())..(1 + n).min(data.len())]);
             let msg = &data[(1 + n).min(data.len())..];
             vec![("C15", c15::oracle_bytes(msg, &ops, st))]
         }
